@@ -28,7 +28,41 @@ ASSUMPTIONS = ["invocation counts are not compared (a wrapper with a defaulted b
 
 
 @st.composite
+def _siblings_case(draw):
+    """Two or three SIBLING nested graphs; each binds, inside, an input that it calls by the same name `kshared` (to different
+    values).  Flat equivalent: the bound parameters are simply different parameters."""
+    topo = draw(gen.g1_nodes(4, 8, default_on_edge=0.0))
+    outer, _wg = draw(gen.multi_nest(topo))
+    prod = ref.producers(topo)
+    flat_bind = {}
+    ws = [w for w in outer if w["k"] == "graph"]
+    for i, w in enumerate(ws):
+        inner_names = {x["name"] for x in w["graph"]["nodes"]}
+        own = [q for q in w["flat_inputs"] if q not in prod and not any(q in x["params"] for x in topo if x["name"] not in inner_names)
+               and not any(q in x.get("defaults", {}) for x in topo)]
+        if not own:
+            # give the wrapper's first node a plain input of its own
+            q = f"kw{i}"
+            first = w["graph"]["nodes"][0]["name"]
+            for x in topo:
+                if x["name"] == first:
+                    x["params"] = [q] + x["params"]
+            w["graph"]["nodes"] = [({**x, "params": [q] + x["params"]} if x["name"] == first else x) for x in w["graph"]["nodes"]]
+            w["flat_inputs"] = [q] + list(w["flat_inputs"])
+        else:
+            q = draw(st.sampled_from(own))
+        w["graph"]["nodes"] = [{**x, "params": ["kshared" if z == q else z for z in x["params"]]} for x in w["graph"]["nodes"]]
+        w["graph"]["bind"] = {"kshared": ["ib", i]}
+        w["flat_inputs"] = ["kshared" if z == q else z for z in w["flat_inputs"]]
+        flat_bind[q] = ["ib", i]
+    return {"part": "siblings", "flat": topo, "nested": draw(gen.permuted(outer)), "flat_bind": flat_bind, "supply_shared": prob(draw, 0.25),
+            "runner": draw(st.sampled_from(["sync", "async"]))}
+
+
+@st.composite
 def _case(draw, tier):
+    if prob(draw, 0.15):
+        return draw(_siblings_case())
     topo = draw(gen.g1_nodes(3, 8 if tier == "quick" else 10, p_const=0.15))  # incl. outputs whose value is None / falsy
     prod = ref.producers(topo)
     inputs = []
@@ -89,7 +123,38 @@ def _all_func_nodes(nodes):
             yield n
 
 
+def _check_siblings(case, ev):
+    flat, fb = case["flat"], case["flat_bind"]
+    labels = {"part:siblings", f"wrappers_binding_kshared:{len(fb)}"}
+    required, _opt, _ = ref.input_spec(flat, T(fb), None)
+    values = {q: ("in", q, 0) for q in required}
+    fbind = T(fb)
+    supplied_shared = case["supply_shared"] and len(fb) >= 1
+    if supplied_shared:
+        # the caller supplies the shared name: every wrapper that takes it gets the caller's value
+        fbind = {q: ("in", "kshared", 0) for q in fb}
+        labels.add("shared_name_supplied")
+    env, _args = ref.eval_dag(flat, values, fbind)
+    ctx = Ctx()
+    try:
+        g = make_graph(ctx, {"nodes": case["nested"]}, "sync")
+    except Exception as e:  # noqa: BLE001
+        raise Violation("c05.nested_rejected", f"sibling nested graphs binding the same input name were rejected: {type(e).__name__}: {str(e)[:300]}", etype=type(e).__name__) from None
+    nvals = dict(values)
+    if supplied_shared:
+        nvals["kshared"] = ("in", "kshared", 0)
+    out = (run_sync if case["runner"] == "sync" else run_async)(g, nvals)
+    if out.status != "completed":
+        raise Violation("c05.not_completed", f"[siblings {case['runner']}] {out.brief()}")
+    if out.values != env:
+        diff = {k: (J(out.values.get(k, "<absent>")), J(env.get(k, "<absent>"))) for k in set(out.values) | set(env) if out.values.get(k, "<absent>") != env.get(k, "<absent>")}
+        raise Violation("c05.values", f"[siblings {case['runner']}; each wrapper binds its own 'kshared': {J(fb)}] (nested, reference): {diff}", siblings=True)
+    ev.case(case, len(fb) >= 2, sorted(labels))
+
+
 def check_case(case, ev):
+    if case.get("part") == "siblings":
+        return _check_siblings(case, ev)
     flat_nodes = case["flat"]
     values = T(case["values"])
     fbind = T(case["flat_bind"])
